@@ -51,11 +51,26 @@ def minimise(camp, entry, budget):
     sc = entry["scenario"]
     clause = entry["violation"]["clause"]
 
+    def klass(v):
+        # the violation CLASS that must persist while shrinking: clause, kind of finding, and the class
+        # of an unexpected exception (so that shrinking cannot drift into another failure, e.g. an
+        # operation that no longer fits the shrunk machine)
+        d = v.get("detail") or {}
+        a = d.get("actual")
+        return (v["clause"], v.get("kind"), a.get("cls") if isinstance(a, dict) else None)
+
+    want = klass(entry["violation"])
+
     def still(c):
         ev = camp.evaluate(c)
-        return any(v["clause"] == clause for v in ev["violations"])
+        return any(klass(v) == want for v in ev["violations"])
 
     t0 = time.time()
+    if os.environ.get("VERIF_NO_MINIMISE"):
+        ev = camp.evaluate(sc)
+        v = next((x for x in ev["violations"] if x["clause"] == clause), entry["violation"])
+        return sc, v, ev, {"evals": 0, "wall_s": 0.0, "size_before": shrink_mod.size(sc),
+                           "size_after": shrink_mod.size(sc)}
     small, evals = shrink_mod.shrink(sc, still, max_evals=budget)
     ev = camp.evaluate(small)
     v = next((x for x in ev["violations"] if x["clause"] == clause), None)
